@@ -3,10 +3,11 @@
   {'cin': 3, 'size': 6, 'stages': [...], 'head': 'flatlin'|'gaplin'|'linlin', 'out': 3}
 
 stages:
-  {'op':'conv','cout','k','bias','bn','dw','s','act'}     conv [-> bn] [-> relu]
+  {'op':'conv','cout','k','bias','bn','dw','s','act','pm'} conv [-> bn] [-> relu]; 'pm' = padding_mode
   {'op':'residual','cout'}                                 relu(convA(T) + convB(T))
   {'op':'skipadd'}                                         relu(T + conv(T))
   {'op':'pool','kind':'max'|'avg'}
+  {'op':'twice','pool':bool}                                relu(conv(T)) [-> maxpool] -> relu(conv(.)) with the SAME conv (c -> c)
   {'op':'sn','branches':[b...], 'twice': bool, 'gumbel': bool, 'hard': bool}
         SuperNetModule; branch kinds: 'c3' conv3x3, 'c1' conv1x1, 'c5' conv5x5, 'seq' Sequential(conv3x3, BN, ReLU),
         'blk' user block (conv3x3 -> relu -> conv1x1) ending in a sub-module call, 'fblk' user block ending in a functional relu,
@@ -78,6 +79,15 @@ class Net2d(nn.Module):
         self.prog = prog
         c = prog['cin']
         self.blocks = nn.ModuleDict()
+        # 'two_in': the network has TWO inputs (each cin channels) joined by 'sum' (x + y), 'convsum' (relu(convA(x) + convB(y))) or 'cat'
+        self.two_in = prog.get('two_in')
+        if self.two_in == 'convsum':
+            self.blocks['ina'] = nn.Conv2d(c, 4, 3, padding=1)
+            self.blocks['inb'] = nn.Conv2d(c, 4, 1)
+            c = 4
+        elif self.two_in == 'cat':
+            c = 2 * c
+        self.c_joined = c
         for i, st in enumerate(prog['stages']):
             op = st['op']
             if op == 'conv':
@@ -85,7 +95,8 @@ class Net2d(nn.Module):
                 co = c if dw else st.get('cout', 4)
                 k = st.get('k', 3)
                 self.blocks[st.get('alias', f's{i}')] = nn.Conv2d(c, co, k, stride=st.get('s', 1), padding=st.get('p', k // 2),
-                                                 groups=c if dw else 1, bias=st.get('bias', True))
+                                                 groups=c if dw else 1, bias=st.get('bias', True),
+                                                 padding_mode=st.get('pm', 'zeros'))
                 if st.get('bn'):
                     self.blocks[f's{i}bn'] = nn.BatchNorm2d(co)
                 if st.get('act', True):
@@ -100,6 +111,10 @@ class Net2d(nn.Module):
                 self.blocks[f's{i}a'] = nn.Conv2d(c, c, 3, padding=1)
             elif op == 'pool':
                 self.blocks[f's{i}'] = nn.MaxPool2d(2) if st.get('kind', 'max') == 'max' else nn.AvgPool2d(2)
+            elif op == 'twice':       # one conv (c -> c) invoked at two call sites, optionally at two resolutions
+                self.blocks[f's{i}'] = nn.Conv2d(c, c, st.get('k', 3), padding=st.get('k', 3) // 2)
+                if st.get('pool'):
+                    self.blocks[f's{i}p'] = nn.MaxPool2d(2)
             elif op == 'sn':
                 from plinio.methods.supernet import SuperNetModule
                 co = st.get('cout', c)
@@ -112,7 +127,7 @@ class Net2d(nn.Module):
         self.c_final = c
         self.eval()       # (a BatchNorm in train mode rejects a 1x1 map with batch size 1)
         with torch.no_grad():
-            probe = self._features(torch.zeros(1, prog['cin'], prog['size'], prog['size']))
+            probe = self._features(torch.zeros(1, self.c_joined, prog['size'], prog['size']))
         self.train()
         h = prog.get('head', 'flatlin')
         out = prog.get('out', 3)
@@ -155,14 +170,28 @@ class Net2d(nn.Module):
                 x = torch.relu(x + self.blocks[f's{i}a'](x))
             elif op == 'pool':
                 x = self.blocks[f's{i}'](x)
+            elif op == 'twice':
+                x = torch.relu(self.blocks[f's{i}'](x))
+                if st.get('pool'):
+                    x = self.blocks[f's{i}p'](x)
+                x = torch.relu(self.blocks[f's{i}'](x))
             elif op == 'sn':
                 x = self.blocks[f's{i}'](x)
                 if st.get('twice'):
                     x = self.blocks[f's{i}'](torch.relu(x))
         return x
 
+    def _join(self, x, y):
+        if self.two_in == 'sum':
+            return x + y
+        if self.two_in == 'convsum':
+            return torch.relu(self.blocks['ina'](x) + self.blocks['inb'](y))
+        return torch.cat((x, y), dim=1)
+
     def forward(self, x):
-        x = self._features(x)
+        return self._head(self._features(x))
+
+    def _head(self, x):
         h = self.prog.get('head', 'flatlin')
         if h == 'flatlin':
             return self.head['fc'](torch.flatten(x, 1))
@@ -181,10 +210,15 @@ class Net2d(nn.Module):
         return self.head['fc'](self.head['relu'](x))
 
 
+class Net2dTwoIn(Net2d):
+    def forward(self, x, y):
+        return self._head(self._features(self._join(x, y)))
+
+
 def build(prog, seed, positive_input=True):
     g = torch.Generator().manual_seed(2000003 * (seed + 1) + 29)
     torch.manual_seed(seed * 104729 + 7)
-    m = Net2d(prog)
+    m = Net2dTwoIn(prog) if prog.get('two_in') else Net2d(prog)
     with torch.no_grad():
         for n, p in m.named_parameters():
             if n.endswith('sn_combiner.alpha'):
@@ -199,7 +233,21 @@ def build(prog, seed, positive_input=True):
     m.eval()
     shape = (3, prog['cin'], prog['size'], prog['size'])
     x = torch.rand(shape, generator=g) if positive_input else torch.randn(shape, generator=g)
+    if prog.get('two_in'):
+        x = (x, torch.rand(shape, generator=g) if positive_input else torch.randn(shape, generator=g))
     return m, x
+
+
+def call(net, x):
+    """forward of a one- or two-input network on the witness batch returned by build()"""
+    return net(*x) if isinstance(x, tuple) else net(x)
+
+
+def shape_args(prog, x):
+    """how the input signature is given to a PLiNIO constructor"""
+    if prog.get('two_in'):
+        return {'input_example': tuple(t[:1] for t in x)}
+    return {'input_shape': input_shape(prog)}
 
 
 def input_shape(prog):
